@@ -732,16 +732,18 @@ fn generated_families(_out: &mut Out, _monitor: &mut Vec<String>, classes: &mut 
 
 // ------------------------------------------------------------------ main
 
-struct Out { cases: Vec<String>, imp: Vec<String> }
+struct Out { cases: std::io::BufWriter<std::fs::File>, imp: std::io::BufWriter<std::fs::File>, n: u64 }
 impl Out {
-    fn universe(&mut self, u: &[Node]) { install(u); self.cases.push(universe_text(u)); self.imp.push("ok".into()); }
-    fn op(&mut self, op: &str, k: usize) -> String { let a = run_op(op, k); self.cases.push(format!("{op} {k}")); self.imp.push(a.clone()); a }
+    fn universe(&mut self, u: &[Node]) { install(u); writeln!(self.cases, "{}", universe_text(u)).unwrap(); writeln!(self.imp, "ok").unwrap(); self.n += 1; }
+    fn op(&mut self, op: &str, k: usize) -> String { let a = run_op(op, k); writeln!(self.cases, "{op} {k}").unwrap(); writeln!(self.imp, "{a}").unwrap(); self.n += 1; a }
 }
 
 fn gen(outdir: &str, families: u64) {
     let seed = env_u64("VERIF_SEED", 1);
     let mut r = Rng::new(seed);
-    let mut out = Out { cases: vec![], imp: vec![] };
+    std::fs::create_dir_all(outdir).unwrap();
+    let mut out = Out { cases: std::io::BufWriter::new(std::fs::File::create(format!("{outdir}/cases.txt")).unwrap()),
+                        imp: std::io::BufWriter::new(std::fs::File::create(format!("{outdir}/impl.txt")).unwrap()), n: 0 };
     let mut monitor: Vec<String> = vec![];
     let mut distinct = HashSet::new();
     let mut samples: Vec<String> = vec![];
@@ -855,13 +857,12 @@ fn gen(outdir: &str, families: u64) {
         bump(&mut classes, if a != b { "incoherent_probe_id_depends_on_push_order" } else { "incoherent_probe_id_stable" });
     }
     generated_families(&mut out, &mut monitor, &mut classes);
-    std::fs::create_dir_all(outdir).unwrap();
-    std::fs::write(format!("{outdir}/cases.txt"), out.cases.join("\n") + "\n").unwrap();
-    std::fs::write(format!("{outdir}/impl.txt"), out.imp.join("\n") + "\n").unwrap();
+    out.cases.flush().unwrap();
+    out.imp.flush().unwrap();
     std::fs::write(format!("{outdir}/monitor.txt"), monitor.iter().map(|l| l.replace('\n', " ") + "\n").collect::<String>()).unwrap();
     let js = |m: &BTreeMap<String, u64>| m.iter().map(|(k, v)| format!("\"{k}\":{v}")).collect::<Vec<_>>().join(",");
     let mut s = String::new();
-    write!(s, "{{\"seed\":{seed},\"ops\":{},", out.cases.len()).unwrap();
+    write!(s, "{{\"seed\":{seed},\"ops\":{},", out.n).unwrap();
     for (k, v) in &st { write!(s, "\"{k}\":{v},").unwrap(); }
     write!(s, "\"layout_kinds\":{{{}}},\"edit_kinds\":{{{}}},", js(&kinds), js(&edits)).unwrap();
     write!(s, "\"result_classes\":{{{}}},", classes.iter().map(|(k, v)| format!("\"{k}\":{v}")).collect::<Vec<_>>().join(",")).unwrap();
